@@ -35,6 +35,9 @@ TRUSTED = [
     "(dict keys are unique); dict *order* is kept as is and the theorem's right-hand side `normalize` reorders to template order - "
     "Python's Message.__eq__ compares dicts and so ignores order (C01_normalize_keeps_values states what normalize preserves)",
     "names are character lists instead of Coq `string` (extraction of `string` clashes with the shared OCaml prelude)",
+    "NOT proved (design item C01_default_width, first clause): `serialize d m = serialize d (normalize d m)` as one equation; what IS "
+    "proved is the round trip to `normalize d m`, that an unset variable encodes as zeros of the template width (C01_default_width) "
+    "which is the encoding of its default value (C01_default_is_zero_value), and what normalize keeps (C01_normalize_keeps_*)",
     "the template dictionary is taken from the live objects (DEFAULT_TEMPLATE_DICT) by harness/translate/template.py; "
     "template_parser.py's reading of message_template.msg itself is not modelled (it is the input of the translator)",
 ]
@@ -736,10 +739,10 @@ def gen_cases(ctx, im: Impl):
                 m.add_block(im.Block(b.name, fill_missing=True))
         yield "alldefault", m
     # 5. non-conforming messages: both sides must refuse alike (or encode alike)
-    for _ in range(ctx.pick(700, 6000)):
+    for _ in range(ctx.pick(700, 12000)):
         yield "bad", g.message(rng.choice(im.tmsgs), mode=rng.choice(BAD_MODES))
     # 6. random bulk
-    for _ in range(ctx.pick(2200, 40000)):
+    for _ in range(ctx.pick(2200, 110000)):
         yield "random", g.message(rng.choice(im.tmsgs))
 
 
